@@ -5,6 +5,7 @@ package sql
 // Nothing here uses github.com/rqlite/sql or rqlite's processor.
 
 import (
+	"strconv"
 	"strings"
 )
 
@@ -42,7 +43,7 @@ func c14IsSpace(c byte) bool {
 }
 
 // c14Lex tokenizes s following https://sqlite.org/lang.html lexical rules
-// (tokenize.c): comments are whitespace; ” "" “ escapes by doubling.
+// (tokenize.c): comments are whitespace; quotes inside quoted tokens are escaped by doubling.
 func c14Lex(s string) []c14Tok {
 	var out []c14Tok
 	i := 0
@@ -412,4 +413,19 @@ func c14JoinToks(ts []c14Tok) string {
 		sb.WriteString(t.Text)
 	}
 	return sb.String()
+}
+
+// c14TooBig reports whether a numeric literal exceeds SQLite's maximum blob
+// length (1 000 000 000): randomblob() of it fails with "string or blob too big".
+func c14TooBig(t c14Tok) bool {
+	if t.Kind != c14TNumber {
+		return false
+	}
+	v := strings.ReplaceAll(t.Text, "_", "")
+	if len(v) > 2 && (v[1] == 'x' || v[1] == 'X') {
+		n, err := strconv.ParseUint(v[2:], 16, 64)
+		return err != nil || n > 1000000000
+	}
+	f, err := strconv.ParseFloat(v, 64)
+	return err == nil && f > 1000000000
 }
